@@ -277,6 +277,10 @@ class C01(core.Check):
                 return 'parsing the source document %r raised %s' % (html0, type(e).__name__)
             if p1.getRoot() is None:
                 return None
+            # "obtained from a previous parse": the tree is the one the source's token sequence dictates (nothing dropped on the way in)
+            bad = c02.C02._check_doc(None, p1, dict(toks=case['toks'], doctype=case.get('doctype')), html0, 'parse of the source document')
+            if bad:
+                return bad
             s1 = p1.getHTML()
             orig = p1.getRoot()
             multi = orig.tagName == 'xxxblank'
